@@ -342,7 +342,10 @@ class Units(object):
             pi_expo = 0
 
         if name is None:
-            name = Units.name_power(self.name, 0.5)
+            try:
+                name = Units.name_power(self.name, 0.5)
+            except ValueError:      # e.g. "ster": the name has no square root
+                name = None         # a name is created when it is needed
 
         return Units(exponents, (numer, denom, pi_expo), name)
 
